@@ -11,7 +11,7 @@ RULE = ("random: every filter type x measure on G-TABLE / G-STRINGS cases observ
         "filter_pair (all row pairs), filter_tables and filter_candset; non-trivial = a pair "
         "in 'must' and a pair the filter drops; E1/E2: size triples / arrangements through "
         "filter_tables (and filter_pair for E1); E3: all short-string pairs for EDIT_DISTANCE; "
-        "distinct = case digests")
+        "'dense': all-subsets tables per filter/measure/threshold/n_jobs; distinct = case digests")
 ASSUMPTIONS = ["py_stringmatching tokenizers are correct; set-mode tokenizers for set measures, "
                "bag-mode q-gram tokenizers for EDIT_DISTANCE (as C04 states)",
                "edit-distance thresholds passed to filters are Python ints"]
